@@ -666,6 +666,16 @@ func parseDateParts(dateString string, isEndOfRange bool) Date {
 		}
 	}
 
+	// There is no year zero. It would be printed as a date without a year
+	// ("Jan 0" as "Jan") which cannot be parsed again.
+	if year == 0 {
+		return Date{
+			IsEndOfRange: isEndOfRange,
+			Constraint:   DateConstraintFromString(parts[constraintPos]),
+			ParseError:   errors.New("the year cannot be zero"),
+		}
+	}
+
 	return Date{
 		Day:          day,
 		Month:        month,
